@@ -1068,6 +1068,10 @@ for _p in ("C05", "C06", "C10", "C11", "C12", "C13", "C15", "C16", "C17", "C18",
                                          "the auto-detaching observer it wraps the subscriber in - are re-proved inside this check.")
 for _p in ("C28", "C29", "C30", "C31", "C32", "C33", "C34", "C35", "C37", "C41", "C42", "C43", "C44", "C04", "C07", "C08"):
     ADDENDA[_p] = ADDENDA.get(_p, "") + " The contracts of the disposable containers / subjects its own files import are re-proved inside this check."
+for _p in ("C05", "C06", "C10", "C11", "C12", "C13", "C14", "C15", "C16", "C17", "C18", "C19", "C24", "C40"):
+    ADDENDA[_p] = ADDENDA.get(_p, "") + " The guard condition (no user exception escapes a handler of an operator) is checked inside this property as well."
+for _p in ("C20", "C21", "C22", "C23"):
+    ADDENDA[_p] = ADDENDA.get(_p, "") + " At every call-out to an observer the observer may dispose the subject from inside its callback."
 for _p, _t in ADDENDA.items():
     if _p in CHECKS:
         CHECKS[_p] = dict(CHECKS[_p], text=CHECKS[_p]["text"] + _t)
